@@ -746,14 +746,29 @@ pub fn run_case(line: &str) -> (String, Vec<String>) {
             (format!("chunk{}", c), vec![], c),
         ]
     };
-    let heap0 = heap_mark();
-    let base = run_parser(mk(scheds[0].1.clone()), scheds[0].2);
-    let (peak, largest) = heap_peak_since(heap0);
-    // C05: memory bounded by a constant multiple of the input consumed (the reader's first chunk and
-    // the harness's own record of the items included) - not by a count the input merely declares
-    if peak > 64 * delivered.len() + (1 << 20) {
-        fails.push(format!("C05:parsing {} bytes allocated {} bytes at peak (largest request {})", delivered.len(), peak, largest));
+    // C05: memory bounded by a constant multiple of the input consumed - not by a count the input merely
+    // declares.  Measured on a parse that records nothing (the harness's own item log would count otherwise:
+    // a document of 2^20 two-byte comment lines is 2 MiB of input and > 200 MiB of recorded observations).
+    {
+        let src = mk(scheds[0].1.clone());
+        let heap0 = heap_mark();
+        let _ = catch(|| {
+            let mut reader = DeferredReader::from_read(src);
+            reader.set_chunk_size(16384);
+            if let Ok(mut p) = Parser::new(LineReader::new(reader), Config::default()) {
+                let mut n = 0usize;
+                while let Ok(Some(_)) = p.next_line() {
+                    n += 1;
+                }
+                std::hint::black_box(n);
+            }
+        });
+        let (peak, largest) = heap_peak_since(heap0);
+        if peak > 64 * delivered.len() + (1 << 20) {
+            fails.push(format!("C05:parsing {} bytes allocated {} bytes at peak (largest request {})", delivered.len(), peak, largest));
+        }
     }
+    let base = run_parser(mk(scheds[0].1.clone()), scheds[0].2);
     let base_text = base.text(false);
     fails.extend(recall_oracles(&delivered, fault, &base, "one-shot"));
     let mut again_note = String::new();
